@@ -74,3 +74,14 @@ Theorem C01_model_sound_certified : forall terms ops hs s i j a b ti tj,
   eg_eq s a b = Ok true -> Deriv (asserted terms ops) 0 ti tj.
 Proof. exact equality_sound_certified. Qed.
 Print Assumptions C01_model_sound_certified.
+
+(* with ONE static, decidable premise on the inserted terms (EGraph/OpsPreFacts.v: term_static_user = arity-correct children,
+   pairwise distinct binders per node, slot names of the two user residues) *)
+From SE Require Import EGraph.OpsPreFacts.
+Theorem C01_model_sound_for_all_histories : forall terms ops hs s i j a b ti tj, List.Forall term_static_user terms ->
+  run_ops terms ops [] empty_egraph = Ok (hs, s) ->
+  nth_opt hs i = Some a -> nth_opt hs j = Some b ->
+  nth_opt (handle_cterms terms ops) i = Some ti -> nth_opt (handle_cterms terms ops) j = Some tj ->
+  eg_eq s a b = Ok true -> Deriv (asserted terms ops) 0 ti tj.
+Proof. exact equality_sound_all_static. Qed.
+Print Assumptions C01_model_sound_for_all_histories.
